@@ -202,7 +202,7 @@ def run_job(pid, job, acc):
     if job.get("life"):
         # a channel life cycle with a restart in it: the restart is the cut (kept server: everybody merely drops)
         from ..lifegen import LifeGen
-        h = LifeGen(seed, napps=2, restarts=True).gen()
+        h = LifeGen(seed, napps=2, restarts=True, explicit_sweeps=True).gen()   # (these runs have no timer)
         cuts = [i for i, s in enumerate(h) if s[0] == "restart" and i >= 3]
         if cuts:
             cut = r.choice(cuts)
